@@ -131,6 +131,17 @@ def check_conversion(fx, rep):
                             pv = True
     if not pv:
         problems.append('slots are not converted through their present value')
+    # every slot of the bundle account must arrive in the cache account: a slot that is missing
+    # is read from the database when the status says storage is not fully known (e.g. Changed)
+    TOTAL = {'iter', 'into_iter', 'map', 'collect', 'cloned', 'copied', 'clone', 'account_info', 'deref'}
+    adaptors = set()
+    for _, t in f.calls():
+        c_ = t.callee or ''
+        if '::iter::' in c_ or 'Iterator::' in c_:
+            adaptors.add(c_.split('::')[-1])
+    partial = adaptors - TOTAL
+    if partial:
+        problems.append('the storage conversion uses %s, which can drop slots (a dropped slot of a Changed account is read from the database instead of the bundle)' % sorted(partial))
     if problems:
         rep.violation('R3-conversion', 'From<BundleAccount>', 'CacheAccount::from(BundleAccount): ' + sorted(set(problems))[0], f.where())
     else:
